@@ -67,6 +67,7 @@ def run(ctx, out):
         del ops[:], kinds[:]
 
     rejected = [0]
+    size = [0]
 
     def add(op, kind):
         h = hash(op)
@@ -75,8 +76,10 @@ def run(ctx, out):
         seen.add(h)
         ops.append(op)
         kinds.append(kind)
-        if len(ops) >= BATCH:
+        size[0] += len(op)
+        if len(ops) >= BATCH or size[0] >= 300_000_000:
             evaluate()
+            size[0] = 0
 
     cmds = [s for s in layout["structs"] if s["ctrl"] is not None]
     plain = [s for s in layout["structs"] if s["ctrl"] is None]
@@ -141,10 +144,11 @@ def run(ctx, out):
         big = len(b) > 400 and not thorough
         for k in (range(len(b)) if not big else list(range(64)) + list(range(64, len(b), 13))):
             add(f"{name} {C.hexs(b[:k])}", "truncation")
-        # single byte substitutions
-        vals = range(256) if thorough else BOUNDARY
+        # single byte substitutions (thorough: all 256 values at every offset of entries up to 400 bytes and at the first 64 offsets of
+        # longer ones, the boundary values at their remaining offsets)
         step = 1 if len(b) <= 80 or thorough else 3
         for i in (range(0, len(b), step) if not big else list(range(48)) + list(range(48, len(b), 37))):
+            vals = range(256) if thorough and (len(b) <= 400 or i < 64) else BOUNDARY
             for x in vals:
                 if x != b[i]:
                     m = bytearray(b); m[i] = x
@@ -179,7 +183,7 @@ def run(ctx, out):
                 inner = b"\x25" + R.ber_len(len(inner)) + inner
             tl = b"\x06" + R.ber_len(len(inner)) + inner
             body = (b"\x00\x00\x00" if name.endswith("WriteFile") else b"") + tl
-            add(f"dec {name} {(bytes(s['ctrl']) + R.length_prefix('adpu', body) + body).hex()}", "large")
+            add(f"dec@1 {name} {(bytes(s['ctrl']) + R.length_prefix('adpu', body) + body).hex()}", "large")      # @1: log records not evaluated
     # transport level (zvt/src/io.rs): headers announcing 0..3, 250..260 and 65500..65535 body bytes, with the whole body, half of it, or none
     pl = "sequences::PrintSystemConfigurationResponse"
     for n in list(range(0, 4)) + list(range(250, 261)) + list(range(65500, 65536)) + [32767, 32768, 65280]:
